@@ -14,6 +14,7 @@ import (
 	"verif/harness/props/c14"
 	"verif/harness/props/c17"
 	"verif/harness/props/c18"
+	"verif/harness/props/c19"
 	"verif/harness/props/c20"
 )
 
@@ -31,6 +32,7 @@ func Specs() map[string]*core.Spec {
 		c14.Spec(),
 		c17.Spec(),
 		c18.Spec(),
+		c19.Spec(),
 		c20.Spec(),
 	} {
 		m[s.ID] = s
